@@ -86,3 +86,57 @@ def pool(rng, n, with_shipped=True):
                 continue
             out.append((smi, m, rng.randrange(m.GetNumConformers())))
     return out
+
+
+# ---- threshold-directed synthetic geometries --------------------------------------------------------------
+# A centre atom with n >= 3 neighbours of identical (bond, identifier) key takes the "mean vector" branch of pick_y;
+# the decision |mean| >= 0.1 A is then taken on a vector whose length we choose a moderate factor away from the
+# threshold (never within round-off of it) and whose direction is random, so that any dependence on the lab axes shows.
+SYMMETRIC = [('C(F)(F)(F)F', 0, 'tetra'), ('C(Cl)(Cl)(Cl)Cl', 0, 'tetra'), ('CC(C)(C)C', 1, 'tetra'), ('FS(F)(F)(F)(F)F', 1, 'octa'),
+             ('FB(F)F', 1, 'trig'), ('C(F)(F)F', 0, 'trig'), ('ClP(Cl)(Cl)(Cl)Cl', 1, 'bipy'), ('[O-]Cl(=O)(=O)=O', 1, 'tetra')]
+
+_DIRS = {
+    'tetra': [(1, 1, 1), (1, -1, -1), (-1, 1, -1), (-1, -1, 1)],
+    'octa': [(1, 0, 0), (-1, 0, 0), (0, 1, 0), (0, -1, 0), (0, 0, 1), (0, 0, -1)],
+    'trig': [(1, 0, 0), (-0.5, 0.8660254037844386, 0), (-0.5, -0.8660254037844386, 0)],
+    'bipy': [(1, 0, 0), (-0.5, 0.8660254037844386, 0), (-0.5, -0.8660254037844386, 0), (0, 0, 1), (0, 0, -1)],
+}
+
+
+def synthetic_symmetric(rng, factor=None):
+    """(name, mol, conf_id): a symmetric centre whose neighbours' mean vector has length factor * 0.1 A, randomly oriented."""
+    import numpy as np
+    from rdkit import Chem
+    from rdkit.Chem import AllChem
+    from rdkit.Geometry import Point3D
+    import m1lib
+    smi, centre, shape = rng.choice(SYMMETRIC)
+    m = Chem.MolFromSmiles(smi)
+    m = Chem.Mol(m)
+    if m.GetNumConformers() == 0:
+        AllChem.Compute2DCoords(m)
+    conf = m.GetConformer()
+    nbrs = [a.GetIdx() for a in m.GetAtomWithIdx(centre).GetNeighbors()]
+    dirs = [np.array(d, dtype=float) / np.linalg.norm(d) for d in _DIRS[shape]][:len(nbrs)]
+    r = rng.uniform(1.3, 1.9)
+    f = factor if factor is not None else rng.choice([0.3, 0.6, 0.8, 1.2, 1.35, 1.5, 1.65, 1.9, 2.5, 4.0])
+    n = len(nbrs)
+    resid = sum(dirs) * r / n                                # mean of the ideal arrangement (0 for the full polyhedra)
+    u = np.array([rng.gauss(0, 1) for _ in range(3)])
+    u /= np.linalg.norm(u)
+    shift = u * (0.1 * f) - resid                            # added to every neighbour: the mean becomes u * 0.1 * f
+    R = m1lib.random_rotation(rng)
+    t = np.array([rng.uniform(-5, 5) for _ in range(3)])
+    pos = {centre: np.zeros(3)}
+    for i, d in zip(nbrs, dirs):
+        pos[i] = d * r + shift
+    k = 0
+    for a in m.GetAtoms():                                   # any remaining atoms: far away on a line
+        if a.GetIdx() not in pos:
+            k += 1
+            pos[a.GetIdx()] = np.array([30.0 + 3 * k, 0.3 * k, 0.0])
+    for i, p in pos.items():
+        q = R.dot(p) + t
+        conf.SetAtomPosition(i, Point3D(float(q[0]), float(q[1]), float(q[2])))
+    m.SetProp('_Name', 'sym_%s_%.2f' % (shape, f))
+    return ('%s mean=%.2fx0.1A' % (smi, f), m, conf.GetId())
